@@ -178,6 +178,27 @@ func c01Cases(tier string) []SyncCase {
 			}
 		}
 	}
+	// symlink inodes with several names (every partition), into an empty destination, onto the same layout and
+	// onto the all-separate one (special files with several names arrive as separate nodes, DESIGN.md 5.3)
+	for _, kind := range []fsmodel.Kind{fsmodel.Symlink} {
+		mkK := func(lab []int) fsmodel.Tree {
+			t := mk(lab, 0)
+			for i := range t {
+				if t[i].Kind == fsmodel.File {
+					t[i].Kind, t[i].Data = kind, nil
+					if kind == fsmodel.Symlink {
+						t[i].Perm, t[i].Link = 0777, fmt.Sprintf("../t%d", t[i].Mtime-fsmodel.T0)
+					}
+				}
+			}
+			return t
+		}
+		for _, ls := range parts {
+			for _, mem := range []bool{false, true} {
+				cases = append(cases, SyncCase{Src: mkK(ls), Dst: nil, Mem: mem}, SyncCase{Src: mkK(ls), Dst: mkK(ls), Mem: mem}, SyncCase{Src: mkK(ls), Dst: mkK(parts[0]), Mem: mem})
+			}
+		}
+	}
 	// names that sort differently bytewise and path-wise, long and non-ASCII names
 	long := strings.Repeat("n", 255)
 	names := []string{"a", "a-b", "a b", "a.", "a0", "ab", "é", long}
